@@ -59,43 +59,71 @@ Proof. reflexivity. Qed.
 Lemma sat32_eq i : sat32 i = N.min (N.of_nat i) U32_MAX.
 Proof. reflexivity. Qed.
 Lemma sat32_succ i : u32_sat_succ (sat32 i) = sat32 (S i).
-Proof. unfold u32_sat_succ, sat32, U32_MAX. rewrite Nat2N.inj_succ. lia. Qed.
+Proof.
+  unfold u32_sat_succ, u32_checked_succ, sat32, U32_MAX. rewrite Nat2N.inj_succ.
+  destruct (N.ltb_spec (N.min (N.of_nat i) 4294967295) 4294967295); lia.
+Qed.
+
+(* "a count that overflows the counter exceeds every configured maximum": after i failures the
+   (i+1)-th is refused exactly when i >= min(max, u32::MAX) *)
+Lemma exceeded_spec m i :
+  match u32_checked_succ (sat32 i) with Some n => (m <? n)%N | None => true end
+  = (N.min m U32_MAX <=? N.of_nat i)%N.
+Proof.
+  unfold u32_checked_succ, sat32, U32_MAX.
+  destruct (N.ltb_spec (N.min (N.of_nat i) 4294967295) 4294967295) as [H|H].
+  - destruct (N.ltb_spec m (N.min (N.of_nat i) 4294967295 + 1));
+      destruct (N.leb_spec (N.min m 4294967295) (N.of_nat i)); try reflexivity; lia.
+  - destruct (N.leb_spec (N.min m 4294967295) (N.of_nat i)); try reflexivity; lia.
+Qed.
 
 Lemma reconnect_loop_gen p mx draws : wf_policy p = true ->
   forall fuel i,
   exists ds, loop_delays (reconnect_stepf p mx draws) fuel i (sat32 i) = (ds, false) /\
     (forall j d, nth_error ds j = Some d ->
        delay_for_attempt p (sat32 (S (i + j))) (draws (i + j)%nat) = Some (Some d)) /\
-    (p <> PNone -> mx = None -> length ds = fuel).
+    (p <> PNone -> mx = None -> length ds = fuel) /\
+    (p <> PNone -> forall m, mx = Some m ->
+       N.of_nat (length ds) = N.min (N.of_nat fuel) (N.min m U32_MAX - N.of_nat i)%N).
 Proof.
   intros W. induction fuel as [|k IH]; intros i; cbn [loop_delays].
-  - exists []. split; [reflexivity|]. split; [intros [|j] d; discriminate|reflexivity].
+  - exists []. split; [reflexivity|]. split; [intros [|j] d; discriminate|].
+    split; [reflexivity|]. intros _ m _. cbn. lia.
   - unfold reconnect_stepf at 1. unfold reconnect_step. rewrite sat32_succ.
-    destruct (match mx with Some m => (m <? sat32 (S i))%N | None => false end) eqn:E.
+    destruct (match mx with
+              | Some m => match u32_checked_succ (sat32 i) with Some n => (m <? n)%N | None => true end
+              | None => false end) eqn:E.
     + exists []. split; [reflexivity|]. split; [intros [|j] d; discriminate|].
-      intros _ ->. discriminate.
+      split; [intros _ ->; discriminate|].
+      intros _ m Hm. rewrite Hm in E. rewrite exceeded_spec in E. apply N.leb_le in E. cbn [length]. lia.
     + destruct (policy_total_any p (sat32 (S i)) (draws i) W) as (r & Hr & Hnone). rewrite Hr.
       destruct r as [d|].
-      * destruct (IH (S i)) as (l & El & Hn & Hlen). rewrite El.
-        exists (d :: l). split; [reflexivity|]. split.
+      * destruct (IH (S i)) as (l & El & Hn & Hlen & Hlen'). rewrite El.
+        exists (d :: l). split; [reflexivity|]. split; [|split].
         -- intros [|j] d' Hj.
            ++ cbn in Hj. replace (i + 0)%nat with i by lia. congruence.
            ++ cbn in Hj. replace (i + S j)%nat with (S i + j)%nat by lia. apply Hn, Hj.
         -- intros Hp Hm. cbn [length]. f_equal. apply Hlen; assumption.
+        -- intros Hp m Hm. specialize (Hlen' Hp m Hm). rewrite Hm in E.
+           rewrite exceeded_spec in E. apply N.leb_gt in E.
+           cbn [length]. rewrite !Nat2N.inj_succ in *. lia.
       * exists []. split; [reflexivity|]. split; [intros [|j] d; discriminate|].
-        intros Hp _. exfalso. apply Hp. apply Hnone. reflexivity.
+        split; [intros Hp _|intros Hp m Hm]; exfalso; apply Hp; apply Hnone; reflexivity.
 Qed.
 
 Theorem reconnect_loop_total p mx draws fuel : wf_policy p = true ->
   exists ds, loop_delays (reconnect_stepf p mx draws) fuel 0 0%N = (ds, false) /\
     (forall j d, nth_error ds j = Some d ->
        delay_for_attempt p (N.min (N.of_nat (S j)) U32_MAX) (draws j) = Some (Some d)) /\
-    (p <> PNone -> mx = None -> length ds = fuel).
+    (p <> PNone -> mx = None -> length ds = fuel) /\
+    (p <> PNone -> forall m, mx = Some m ->
+       N.of_nat (length ds) = N.min (N.of_nat fuel) (N.min m U32_MAX)).
 Proof.
-  intros W. destruct (reconnect_loop_gen p mx draws W fuel 0%nat) as (ds & E & H & L).
+  intros W. destruct (reconnect_loop_gen p mx draws W fuel 0%nat) as (ds & E & H & L & L').
   rewrite sat32_0 in E.
-  exists ds. split; [exact E|]. split; [|exact L].
-  intros j d Hj. specialize (H j d Hj). rewrite !Nat.add_0_l, sat32_eq in H. exact H.
+  exists ds. split; [exact E|]. split; [|split; [exact L|]].
+  - intros j d Hj. specialize (H j d Hj). rewrite !Nat.add_0_l, sat32_eq in H. exact H.
+  - intros Hp m Hm. rewrite (L' Hp m Hm). rewrite N.sub_0_r. reflexivity.
 Qed.
 
 (* the delays slept by the default kind of policy are non-decreasing along the loop and capped *)
@@ -109,7 +137,7 @@ Theorem reconnect_loop_exponential c mx fuel draws j k dj dk :
   0 <= dj <= dk /\ dk <= cap_of (max_interval c) <= DUR_MAX.
 Proof.
   intros W Hjk Hj Hk.
-  destruct (reconnect_loop_total (PExponential c) mx draws fuel W) as (ds & E & H & _).
+  destruct (reconnect_loop_total (PExponential c) mx draws fuel W) as (ds & E & H & _ & _).
   rewrite E in Hj, Hk. cbn [fst] in Hj, Hk.
   pose proof (H j dj Hj) as Aj. pose proof (H k dk Hk) as Ak.
   rewrite <- sat32_eq in Aj, Ak. rewrite delay_exp in Aj, Ak.
@@ -142,6 +170,24 @@ Qed.
    policy for the same attempt number *)
 Lemma sat32_saturated i : (U32_MAX <= N.of_nat i)%N -> sat32 i = U32_MAX.
 Proof. unfold sat32. lia. Qed.
+
+(* ---------- what /repo 4ccf9b3 repaired: with max_attempts(u32::MAX) the step after u32::MAX
+   counted failures (the 2^32-th failed call) gives up; with the merely saturating counter of
+   0c0148b (`attempt > max` on the stored value) it slept again, for ever. Unlimited attempts
+   keep going in both. Not reachable by any executed script (2^32 failed calls): theorem-only. *)
+Definition reconnect_step_saturating (p : reconnect_policy) (max_attempts : option N) (attempt : N)
+  (draw : f64) : loop_step :=
+  let a1 := N.min (attempt + 1) U32_MAX in
+  if match max_attempts with Some m => (m <? a1)%N | None => false end then LStop
+  else match delay_for_attempt p a1 draw with
+       | None => LPanic | Some None => LStop | Some (Some d) => LSleep d a1 end.
+
+Example max_attempts_u32_max_is_a_bound :
+  reconnect_step default_policy (Some U32_MAX) U32_MAX fzero = LStop /\
+  reconnect_step_saturating default_policy (Some U32_MAX) U32_MAX fzero = LSleep (5 * NANOS) U32_MAX /\
+  reconnect_step default_policy (Some U32_MAX) (U32_MAX - 1) fzero = LSleep (5 * NANOS) U32_MAX /\
+  reconnect_step default_policy None U32_MAX fzero = LSleep (5 * NANOS) U32_MAX.
+Proof. vm_compute. repeat split; reflexivity. Qed.
 
 (* ---------- what /repo 0c0148b repaired: the same step with `*this.attempt += 1` under overflow
    checks panics once the counter has reached u32::MAX (2^32 - 1 earlier failures), with
